@@ -88,6 +88,18 @@ def fcfg_text(sk, ann):
     return "\n".join(lines)
 
 
+def merge_alternatives(text):
+    """the same grammar with the productions of one (annotated) head written on one line: head -> body | body"""
+    order, bodies = [], {}
+    for line in text.split("\n"):
+        head, body = line.split(" -> ")
+        if head not in bodies:
+            order.append(head)
+            bodies[head] = []
+        bodies[head].append(body)
+    return "\n".join("%s -> %s" % (h, " | ".join(bodies[h])) for h in order)
+
+
 def fcfg_reference(sk, ann):
     """Instantiate every feature variable (named ?x: shared within the production; unannotated position: a fresh one)
     over {p, q} -> plain grammar over non-terminals (X, value)."""
@@ -384,12 +396,19 @@ class C18(Prop):
         if case[0] in ("fcfg2", "fcfg3"):
             text = agreement2_text(case[1]) if case[0] == "fcfg2" else lexical_text(case[1])
             f = ctx.call(FCFG.from_text, text, A3_NAMES[case[1][0]][0]) if case[0] == "fcfg3" else ctx.call(FCFG.from_text, text)
+            words3 = [("x", "y", "z"), ("x", "y"), ("x", "z", "y"), ("x",), ()]
+            if case[0] == "fcfg3":
+                words3 = WNVW
             if ctx.returns(f, "C18.fcfg.from_text", grammar=text):
-                words3 = [("x", "y", "z"), ("x", "y"), ("x", "z", "y"), ("x",), ()]
-                if case[0] == "fcfg3":
-                    words3 = WNVW
                 ctx.batch_equal("C18.fcfg.contains", lambda w: f.value.contains(list(w)), words3,
                                 lambda w: w in ref["lang"], stop_at_first=False, grammar=text)
+            merged = merge_alternatives(text)
+            if merged != text:
+                start = (A3_NAMES[case[1][0]][0],) if case[0] == "fcfg3" else ()
+                f2 = ctx.call(FCFG.from_text, merged, *start)
+                if ctx.returns(f2, "C18.fcfg.from_text", grammar=merged):
+                    ctx.batch_equal("C18.fcfg.contains", lambda w: f2.value.contains(list(w)), words3,
+                                    lambda w: w in ref["lang"], stop_at_first=False, grammar=merged)
             return
         sk = skeleton(case)
         text = fcfg_text(sk, case[3])
@@ -397,6 +416,12 @@ class C18(Prop):
         if not ctx.returns(f, "C18.fcfg.from_text", grammar=text):
             return
         f = f.value
+        merged = merge_alternatives(text)
+        if merged != text:
+            f2 = ctx.call(FCFG.from_text, merged)
+            if ctx.returns(f2, "C18.fcfg.from_text", grammar=merged):
+                ctx.batch_equal("C18.fcfg.contains", lambda w: f2.value.contains(list(w)), W3,
+                                lambda w: w in ref["lang"], stop_at_first=False, grammar=merged)
         plain = None
         if ref["plain"]:
             plain = O.build_cfg(sk, "plain", "prods")
